@@ -1493,6 +1493,34 @@ func heapProgramBody(p *Prog, r *R, prof string) {
 				vs = append(vs, p.scalar())
 			}
 			p.do(&Op{Name: "LAdd", R: 0, Vals: vs})
+			if r.chance(0.7) {
+				// a long derivation, then ONE mutator as the first write on the receiver or on the result (a derivation that shares
+				// storage until the first write must un-share in every mutator, not in most of them)
+				n := p.m.list(0).Count()
+				p.do(&Op{Name: "LSubList", R: 0, S: int64(r.Intn(3)), E: int64(n - r.Intn(3))})
+				res := len(p.m.vars) - 1
+				if r.chance(0.3) {
+					p.do(&Op{Name: "LSubList", R: 0, S: 0, E: int64(n)})
+				}
+				tgt := pickOf(r, []int{0, res, len(p.m.vars) - 1})
+				tn := p.m.list(tgt).Count()
+				switch r.Intn(9) {
+				case 0, 1, 2:
+					p.do(&Op{Name: "LReverse", R: tgt})
+				case 3:
+					p.do(&Op{Name: "LReplace", R: tgt, I: int64(r.Intn(tn)), Vals: []Operand{p.scalar()}})
+				case 4:
+					p.do(&Op{Name: "LInsert", R: tgt, I: int64(r.Intn(tn + 1)), Vals: []Operand{p.scalar()}})
+				case 5:
+					p.do(&Op{Name: "LDelete", R: tgt, Idxs: []int64{int64(r.Intn(tn))}})
+				case 6:
+					p.do(&Op{Name: "LPop", R: tgt})
+				case 7:
+					p.do(&Op{Name: "SetTF", R: tgt, TF: fmt.Sprintf("#%d", r.Intn(tn)), Vals: []Operand{p.scalar()}})
+				default:
+					p.do(&Op{Name: "UnsetTF", R: tgt, TF: fmt.Sprintf("#%d", r.Intn(tn))})
+				}
+			}
 		}
 		p.newContainer()
 		if r.chance(0.5) {
